@@ -51,7 +51,9 @@ def case(draw):
         place = draw(st.sampled_from(['global', 'other', 'term', 'same', 'cashflow', 'global', 'other', 'term']))
         dst = draw(st.sampled_from(roles)) if place in ('other', 'term', 'cashflow') else src
         ops.append({'src': src, 'var_pick': draw(st.integers(0, 30)), 'place': place, 'dst': dst,
-                    'when': draw(st.sampled_from(['pre', 'pre', 'post-codes'])),
+                    # (with the external sector created last of all, the country count changes after the hooks: names
+                    # requested after an explicit code generation would legitimately be stale, so only 'pre' there)
+                    'when': draw(st.sampled_from(['pre', 'pre', 'post-codes'])) if spec['external'] != 'end' else 'pre',
                     'form': draw(st.sampled_from(['2*%s', '%s + 1.0', '0.5*(%s)', '-%s', 'max(%s, 0.0)'])),
                     'var2_pick': draw(st.integers(0, 30)),
                     'terms': draw(st.lists(st.sampled_from(['%(a)s', '-%(a)s', '%(a)s*%(b)s', '%(a)s/%(b)s', '2*%(a)s',
